@@ -67,6 +67,10 @@ pub struct Exec {
     pub n_adds: u64,
     pub n_removed: u64,
     pub sum_exec: u128,
+    /// sparse observation: while set, add / match / update report their return values only - the harness reads
+    /// no listing, no snapshot and no statistics of its own between the calls (so that a read the HISTORY contains
+    /// is the only read that happens), and no judge that needs such a read is asked
+    pub quiet: bool,
 }
 
 pub fn listing(l: &PriceLevel) -> String {
@@ -169,6 +173,7 @@ impl Exec {
             fork: None,
             price: 0,
             issued: 0,
+            quiet: false,
             n_adds: 0,
             n_removed: 0,
             sum_exec: 0,
@@ -176,10 +181,21 @@ impl Exec {
     }
 
     fn emit(&mut self, model_in: impl Into<String>, impl_out: impl Into<String>) {
-        self.out.push((model_in.into(), impl_out.into()));
+        let model_in: String = model_in.into();
+        if self.quiet && model_in.starts_with("judge.") && !model_in.starts_with("judge.C14s") {
+            return;
+        }
+        self.out.push((model_in, impl_out.into()));
+    }
+
+    fn listing_now(&self) -> String {
+        if self.quiet { "[]".to_string() } else { listing(&self.lvl) }
     }
 
     fn judge_stats(&mut self) {
+        if self.quiet {
+            return;
+        }
         let st = show_stats(&self.lvl);
         self.emit(
             format!("judge.C15 {} {} {} {} {}", self.price, st, self.n_adds, self.n_removed, self.sum_exec),
@@ -243,6 +259,7 @@ impl Exec {
                 self.after_conc = false;
                 self.txids.rebase(0);
                 self.price = p;
+                self.quiet = false;
                 self.fork = None;
                 self.issued = 0;
                 self.n_adds = 0;
@@ -293,10 +310,10 @@ impl Exec {
             }
             ["match", q, taker] => {
                 let (Ok(q), Some(taker)) = (q.parse::<u64>(), parse_id(taker)) else { return false };
-                let pre = listing(&self.lvl);
+                let pre = self.listing_now();
                 match catch_unwind(AssertUnwindSafe(|| self.lvl.match_order(q, taker, &self.generator))) {
                     Ok(r) => {
-                        let post = listing(&self.lvl);
+                        let post = self.listing_now();
                         let txs: Vec<String> = r.transactions.as_vec().iter().map(|t| show_tx(t, &mut self.txids)).collect();
                         let txs = format!("[{}]", txs.join(","));
                         let complete = if r.is_complete { 1 } else { 0 };
@@ -340,9 +357,11 @@ impl Exec {
             }
             ["upd", rest @ ..] => {
                 let Some(u) = parse_update(rest) else { return false };
-                let pre = listing(&self.lvl);
+                let pre = self.listing_now();
                 // the caller still looks at what it read before amending
-                self.held.extend(self.lvl.iter_orders());
+                if !self.quiet {
+                    self.held.extend(self.lvl.iter_orders());
+                }
                 let removal = match u {
                     pricelevel::OrderUpdate::Cancel { .. } => true,
                     pricelevel::OrderUpdate::UpdatePrice { new_price, .. } => new_price != self.price,
@@ -370,7 +389,7 @@ impl Exec {
                     }
                 };
                 self.emit(line, format!("upd {outtok}"));
-                let post = listing(&self.lvl);
+                let post = self.listing_now();
                 self.emit(format!("judge.C07 {} {} {} {} {}", self.price, pre, post, outtok, rest.join(" ")), "J C07 ok");
                 self.judge_stats();
             }
@@ -385,15 +404,17 @@ impl Exec {
                 self.emit(line, "conc.thread");
             }
             ["conc.run", rest @ ..] => {
+                let home0 = rest.last() == Some(&"h");
+                let rest: Vec<&str> = rest.iter().copied().filter(|t| *t != "h").collect();
                 let want: Vec<usize> = rest.first().map(|s| s.split(',').filter_map(|x| x.parse().ok()).collect()).unwrap_or_default();
                 let progs = std::mem::take(&mut self.cprog);
                 self.last_prog = progs.clone();
                 let pre_listing = listing(&self.lvl);
                 let budget = std::env::var("VERIF_STEP_BUDGET").ok().and_then(|s| s.parse().ok()).unwrap_or(20_000);
-                let r = crate::conc::run_conc(self.lvl.clone(), self.generator.clone(), progs, &want, &mut self.txids, budget);
+                let r = crate::conc::run_conc(self.lvl.clone(), self.generator.clone(), progs, &want, home0, &mut self.txids, budget);
                 let sched: Vec<String> = r.schedule.iter().map(|x| x.to_string()).collect();
                 let rets: Vec<String> = r.rets.iter().enumerate().map(|(i, v)| format!("t{}:{}", i, v.join("&"))).collect();
-                let line_in = format!("conc.run {}", sched.join(",")).trim_end().to_string();
+                let line_in = format!("conc.run {}{}", sched.join(","), if home0 { " h" } else { "" }).trim_end().to_string();
                 if r.hung {
                     self.emit(line_in, "TIMEOUT");
                     self.hung = true;
@@ -661,7 +682,11 @@ impl Exec {
             ["txt.rt", ty, v] => {
                 // round trip of one value: show, then parse the shown text (C16)
                 let Some(text) = crate::codec::show_by_type(ty, v) else { return false };
-                self.emit(format!("txt.show {ty} {v}"), format!("txt {}", crate::codec::hex(&text)));
+                // a queue / level prints its orders by timestamp, orders that share one in the map's (unspecified,
+                // per-instance) iteration order: the printed text is then compared through its parse only
+                if !((*ty == "queue" || *ty == "level") && crate::codec::has_tied_timestamps(ty, v)) {
+                    self.emit(format!("txt.show {ty} {v}"), format!("txt {}", crate::codec::hex(&text)));
+                }
                 let out = crate::codec::parse_by_type(ty, &text).unwrap_or_else(|| "?".into());
                 self.emit(format!("txt.parse {ty} {}", crate::codec::hex(&text)).trim_end().to_string(), format!("parsed {out}"));
                 // listings: the value the queue/level hands back is canonicalised by (timestamp, id)
@@ -742,6 +767,10 @@ impl Exec {
                     Ok(()) => self.emit(line, "read"),
                     Err(_) => self.emit(line, "PANIC"),
                 }
+            }
+            ["quiet", v] => {
+                self.quiet = *v == "on";
+                self.emit(line, "quiet");
             }
             ["state"] => {
                 let s = show_state(&self.lvl);
